@@ -4,6 +4,9 @@
                                       interpreter under another PYTHONHASHSEED (same one for C12, where it is a sampled
                                       configuration recorded in the replay file), and the aggregate digest at 1 vs 16 workers
    ./check selftest models            reference models vs the repository's own example files
+   ./check selftest sensitivity [id-prefix ...]   apply each filed seeded change (seeded/<id>/patch.diff) to a scratch
+                                      worktree of /repo HEAD and confirm that the check of the property it breaks reports
+                                      a VIOLATION there (about a minute per change)
 """
 import json, os, subprocess, sys
 VERIF = os.path.dirname(os.path.dirname(os.path.abspath(__file__)))
@@ -59,8 +62,39 @@ def models():
     return model_crosscheck.main()
 
 
+def sensitivity(ids):
+    """every filed seeded change (or the given ids) is applied to a scratch worktree of /repo HEAD; the check of the property
+    it breaks must exit 1 with a VIOLATION line there"""
+    import glob, re, shutil, tempfile
+    metas = sorted(glob.glob(os.path.join(VERIF, "seeded", "*", "meta.json")))
+    bad = 0
+    for mp in metas:
+        m = json.load(open(mp))
+        if ids and not any(m["id"].startswith(i) for i in ids):
+            continue
+        wt = tempfile.mkdtemp(prefix="sens_", dir="/tmp"); os.rmdir(wt)
+        subprocess.run(["git", "-C", "/repo", "worktree", "add", "-q", wt, "HEAD"], check=True)
+        try:
+            ap = subprocess.run(["git", "-C", wt, "apply", os.path.join(os.path.dirname(mp), "patch.diff")], capture_output=True, text=True)
+            if ap.returncode:
+                print(f"sensitivity {m['id']}: patch no longer applies to HEAD (skipped): {ap.stderr.strip()[:120]}")
+                continue
+            env = dict(os.environ, BNPSIM_REPO=wt, VERIF_SEED=os.environ.get("VERIF_SEED", "0"))
+            p = subprocess.run([os.path.join(VERIF, "check"), m["breaks_property"], "quick"], capture_output=True, text=True, env=env, cwd=VERIF)
+            ok = p.returncode == 1 and "VIOLATION property=" in p.stdout
+            classes = sorted(set(re.findall(r"class=\((.*?)\) seed", p.stdout)))[:2]
+            print(f"sensitivity {m['id']}: {'caught' if ok else 'MISSED (exit %d)' % p.returncode} by ./check {m['breaks_property']} quick {classes}")
+            bad += 0 if ok else 1
+        finally:
+            subprocess.run(["git", "-C", "/repo", "worktree", "remove", "--force", wt], capture_output=True)
+            shutil.rmtree(wt, ignore_errors=True)
+    return 1 if bad else 0
+
+
 if __name__ == "__main__":
     what = sys.argv[1] if len(sys.argv) > 1 else "determinism"
+    if what == "sensitivity":
+        sys.exit(sensitivity(sys.argv[2:]))
     if what == "determinism":
         sys.exit(determinism(int(sys.argv[2]) if len(sys.argv) > 2 else 60))
     if what == "models":
